@@ -18,6 +18,19 @@ theorem window_violation :
     ∃ s, run true init [.fulfill false, .release true, .passDone false] = some s ∧ s.t.shut = 1 ∧ s.onT = 1 := by
   refine ⟨_, rfl, ?_, ?_⟩ <;> decide
 
+/-- **… and so does fulfilling a promise with its own client** (as pinned): the hook is marked resolved to
+    itself and keeps its references, but `Fulfill` closes `done` and calls `Shutdown` all the same — the
+    capability is shut down while a handle still refers to it … -/
+theorem self_fulfil_violation :
+    ∃ s, run true init [.fulfillSelf, .passDone true] = some s ∧ s.p.shut = 1 ∧ s.onP = 1 ∧ s.p.refs = 1 := by
+  refine ⟨_, rfl, ?_, ?_, ?_⟩ <;> decide
+
+/-- … and the last `Release` closes `done` a second time (a Go panic).  A peer of an RPC connection can bring
+    this about: it answers a call with the export of the caller's own promise. -/
+theorem self_fulfil_double_close :
+    ∃ s, run true init [.fulfillSelf, .release true] = some s ∧ s.bad = true := by
+  refine ⟨_, rfl, ?_⟩; decide
+
 /-! ## the repaired code: `Fulfill` hands the references over before releasing `p.mu` -/
 
 def HookInv (h : Hook) : Prop :=
@@ -198,6 +211,62 @@ theorem resolve_inv (p : Hook) (hi : HookInv p) (hpos : 0 < p.refs) :
     · intro hd; cases hd
     · intro _ h; exact absurd h hc
     · intro hs; omega
+
+/-- `Fulfill`'s critical section preserves the invariant (repaired code) -/
+theorem inv_fulfill (s s' : St) (nl : Bool) (h : Inv s) (hs : fulfillStep false s nl = some s') : Inv s' := by
+  obtain ⟨t, p, res, nil, onT, onP, parked, bad, ua⟩ := s
+  obtain ⟨ht, hp, hrt, hrp, hb, hu, hpk, hnil⟩ := h
+  simp only at ht hp hrt hrp hb hu hpk hnil
+  subst hb hu hpk
+  simp only [fulfillStep] at hs
+  cases res with
+  | true => simp at hs
+  | false =>
+    simp only [Bool.false_eq_true, ↓reduceIte, false_and] at hs hrt hrp
+    split at hs
+    · cases hs
+    · rename_i hlive
+      split at hs
+      · -- the promise had no references left: nothing to hand over
+        rename_i hn0
+        simp only [Option.some.injEq] at hs
+        subst hs
+        have honP : onP = 0 := by omega
+        have hp0 : ({ p with refs := 0 } : Hook) = p := by
+          obtain ⟨refs, calls, done, waiting, shut⟩ := p
+          simp only at hn0; subst hn0; rfl
+        refine ⟨ht, by rw [hp0]; exact hp, ?_, ?_, rfl, rfl, rfl, fun _ => rfl⟩
+        · simp only; rw [hrt, honP]; split <;> simp
+        · simp
+      · rename_i hn0
+        have hpos : 0 < p.refs := by have := hp.1; omega
+        obtain ⟨hpi, hpd⟩ := resolve_inv p hp hpos
+        have hbad : (decide (p.calls = 0) && p.done) = false := by rw [hpd]; simp
+        cases nl with
+        | true =>
+          simp only [↓reduceIte, Option.some.injEq] at hs
+          subst hs
+          refine ⟨ht, ?_, ?_, ?_, ?_, rfl, rfl, fun _ => rfl⟩
+          · simp only; split <;> rename_i hc
+            · have := hpi; rw [if_pos hc] at this; exact this
+            · have := hpi; rw [if_neg hc] at this; exact this
+          · simp only [not_true_eq_false, and_false, ↓reduceIte]; rw [hrt]
+          · simp only [↓reduceIte]; split <;> rfl
+          · simp only [Bool.false_or]; exact hbad
+        | false =>
+          simp only [Bool.false_eq_true, ↓reduceIte, Option.some.injEq] at hs
+          subst hs
+          simp only [Bool.not_false, Bool.true_eq_false, false_and, not_false_eq_true] at hlive
+          have hont : onT ≠ 0 := by
+            intro h; apply hlive; simp [h]
+          have htpos : 0 < t.refs := by rw [hrt]; omega
+          refine ⟨addRefs_inv t ht htpos p.refs (by omega), ?_, ?_, ?_, ?_, rfl, rfl, fun h => by cases h⟩
+          · simp only; split <;> rename_i hc
+            · have := hpi; rw [if_pos hc] at this; exact this
+            · have := hpi; rw [if_neg hc] at this; exact this
+          · simp only [Bool.false_eq_true, not_false_eq_true, and_self, ↓reduceIte]; rw [hrt, hrp]; simp
+          · simp only [↓reduceIte]; split <;> rfl
+          · simp only [Bool.false_or]; exact hbad
 
 /-- the invariant is preserved by every atomic section of every operation (repaired code) -/
 theorem inv_step (s s' : St) (a : Act) (h : Inv s) (hs : step false s a = some s') : Inv s' := by
@@ -465,54 +534,13 @@ theorem inv_step (s s' : St) (a : Act) (h : Inv s) (hs : step false s a = some s
     simp [step] at hs
   | fulfill nl =>
     simp only [step] at hs
-    cases res with
-    | true => simp at hs
-    | false =>
-      simp only [Bool.false_eq_true, ↓reduceIte, false_and] at hs hrt hrp
-      split at hs
-      · cases hs
-      · rename_i hlive
-        split at hs
-        · -- the promise had no references left: nothing to hand over
-          rename_i hn0
-          simp only [Option.some.injEq] at hs
-          subst hs
-          have honP : onP = 0 := by omega
-          have hp0 : ({ p with refs := 0 } : Hook) = p := by
-            obtain ⟨refs, calls, done, waiting, shut⟩ := p
-            simp only at hn0; subst hn0; rfl
-          refine ⟨ht, by rw [hp0]; exact hp, ?_, ?_, rfl, rfl, rfl, fun _ => rfl⟩
-          · simp only; rw [hrt, honP]; split <;> simp
-          · simp
-        · rename_i hn0
-          have hpos : 0 < p.refs := by have := hp.1; omega
-          obtain ⟨hpi, hpd⟩ := resolve_inv p hp hpos
-          have hbad : (decide (p.calls = 0) && p.done) = false := by rw [hpd]; simp
-          cases nl with
-          | true =>
-            simp only [↓reduceIte, Option.some.injEq] at hs
-            subst hs
-            refine ⟨ht, ?_, ?_, ?_, ?_, rfl, rfl, fun _ => rfl⟩
-            · simp only; split <;> rename_i hc
-              · have := hpi; rw [if_pos hc] at this; exact this
-              · have := hpi; rw [if_neg hc] at this; exact this
-            · simp only [not_true_eq_false, and_false, ↓reduceIte]; rw [hrt]
-            · simp only [↓reduceIte]; split <;> rfl
-            · simp only [Bool.false_or]; exact hbad
-          | false =>
-            simp only [Bool.false_eq_true, ↓reduceIte, Option.some.injEq] at hs
-            subst hs
-            simp only [Bool.not_false, Bool.true_eq_false, false_and, not_false_eq_true] at hlive
-            have hont : onT ≠ 0 := by
-              intro h; apply hlive; simp [h]
-            have htpos : 0 < t.refs := by rw [hrt]; omega
-            refine ⟨addRefs_inv t ht htpos p.refs (by omega), ?_, ?_, ?_, ?_, rfl, rfl, fun h => by cases h⟩
-            · simp only; split <;> rename_i hc
-              · have := hpi; rw [if_pos hc] at this; exact this
-              · have := hpi; rw [if_neg hc] at this; exact this
-            · simp only [Bool.false_eq_true, not_false_eq_true, and_self, ↓reduceIte]; rw [hrt, hrp]; simp
-            · simp only [↓reduceIte]; split <;> rfl
-            · simp only [Bool.false_or]; exact hbad
+    exact inv_fulfill _ _ nl ⟨ht, hp, hrt, hrp, rfl, rfl, rfl, hnil⟩ hs
+  | fulfillSelf =>
+    simp only [step] at hs
+    split at hs
+    · cases hs
+    · simp only [Bool.false_eq_true, ↓reduceIte] at hs
+      exact inv_fulfill _ _ true ⟨ht, hp, hrt, hrp, rfl, rfl, rfl, hnil⟩ hs
 
 theorem inv_run (s s' : St) (as : List Act) (h : Inv s) (hr : run false s as = some s') : Inv s' := by
   induction as generalizing s with
@@ -523,8 +551,8 @@ theorem inv_run (s s' : St) (as : List Act) (h : Inv s) (hr : run false s as = s
     | none => simp [hst] at hr
     | some s1 => simp [hst] at hr; exact ih s1 (inv_step s s1 a h hst) hr
 
-/-- **C10** (repaired code), for every interleaving of AddRef / Release / weak upgrades / calls / Fulfill over
-    any number of client handles and threads:
+/-- **C10** (repaired code), for every interleaving of AddRef / Release / weak upgrades / calls / Fulfill (with a
+    client, with nil, or with the promise's own client) over any number of client handles and threads:
     * each hook's `Shutdown` runs at most once;
     * when it runs, no strong reference remains and no call through the hook is in progress
       (for the target: no live handle on it, nor any handle of the resolved promise);
@@ -577,5 +605,9 @@ theorem progress (as : List Act) (s : St) (hr : run false init as = some s) :
 example : (run false init [.addRef true, .startCall true, .fulfill false, .finishCall true, .passDone true,
     .release true, .release true, .release false, .passDone false]).map (fun s => (s.t.shut, s.p.shut, s.onT, s.onP)) =
     some (1, 1, 0, 0) := by decide
+
+-- … and one through a self-fulfilment: the promise's hook is shut down once, the target is untouched
+example : (run false init [.addRef true, .fulfillSelf, .passDone true, .release false, .passDone false]).map
+    (fun s => (s.t.shut, s.p.shut, s.p.refs, s.pResolved)) = some (1, 1, 0, true) := by decide
 
 end Capnp.Props.C10
